@@ -61,6 +61,11 @@ pub struct Case {
     /// makeCredential: user name, display name and RP name of about a hundred bytes (with multi-byte characters)
     #[serde(default)]
     pub long_labels: bool,
+    /// before the judged call both authenticators serve (warmup % 5) earlier requests that ask for user verification -- the
+    /// one side through the direct methods, the other through the trait -- while the user (warmup / 5) % 3 = 0 declines,
+    /// 1 lets the prompt time out, 2 consents; each pair of results is compared as well
+    #[serde(default)]
+    pub warmup: u8,
 }
 
 fn rp_name(c: &Case, i: u8) -> String {
@@ -210,6 +215,41 @@ pub fn check(c: &Case) -> Result<&'static str, String> {
     let (mut b, sb, ub) = build(c);
     let initial: Vec<PkSnap> = sa.creds().iter().map(snap).collect();
     let class: &'static str;
+    if c.warmup % 5 > 0 {
+        let outcome = [Err(0x27u8), Err(0x2F), Ok((true, true))][(c.warmup / 5) as usize % 3];
+        let warm = UvScript { outcome, verification_enabled: Some(true), ..c.script.clone() };
+        ua.set(warm.clone());
+        ub.set(warm);
+        sa.set_faults(Default::default());
+        sb.set_faults(Default::default());
+        for k in 0..c.warmup % 5 {
+            let code = |r: Result<(), passkey_types::ctap2::StatusCode>| r.err().map(u8::from);
+            // (a consenting user only answers assertions here: a registration would mint a different random id on each side)
+            let (x, y) = if k % 2 == 0 || outcome.is_ok() {
+                let req = || {
+                    let mut r = ga_request(c);
+                    r.options.uv = true;
+                    r
+                };
+                (code(block_on(a.get_assertion(req())).map(|_| ())), code(block_on(Ctap2Api::get_assertion(&mut b, req())).map(|_| ())))
+            } else {
+                let req = || {
+                    let mut r = mc_request(c);
+                    r.options.uv = true;
+                    r
+                };
+                (code(block_on(a.make_credential(req())).map(|_| ())), code(block_on(Ctap2Api::make_credential(&mut b, req())).map(|_| ())))
+            };
+            if x != y {
+                return Err(format!("earlier request #{k} (user verification asked, user outcome {outcome:?}): the direct call ends with {x:02X?}, the trait with {y:02X?}"));
+            }
+        }
+        ua.set(c.script.clone());
+        ub.set(c.script.clone());
+        let faults: std::collections::BTreeMap<usize, u8> = c.faults.iter().map(|(i, code)| ((*i % 4) as usize, *code)).collect();
+        sa.set_faults(faults.clone());
+        sb.set_faults(faults);
+    }
     match c.op % 3 {
         0 => {
             let x = block_on(a.get_info());
@@ -356,7 +396,7 @@ fn strategy() -> impl Strategy<Value = Case> {
         script,
         (0u8..2, proptest::bool::weighted(0.2), proptest::bool::weighted(0.85), any::<bool>(), proptest::bool::weighted(0.85), proptest::bool::weighted(0.15), 0u8..8, any::<u8>(), 0u8..3),
     )
-        .prop_map(|((op, hmac, counter_cfg, disc), contents, script, (rp, rk, up, uv, algs_supported, pin_auth, list, list_k, prf))| Case { op, hmac, counter_cfg, disc, contents, script, rp, rk, up, uv, algs_supported, pin_auth, list, list_k, prf, rp0: None, faults: vec![], hmac_in: 0, transports: 0, prf_by_cred: 0, user_len: 0, long_labels: false })
+        .prop_map(|((op, hmac, counter_cfg, disc), contents, script, (rp, rk, up, uv, algs_supported, pin_auth, list, list_k, prf))| Case { op, hmac, counter_cfg, disc, contents, script, rp, rk, up, uv, algs_supported, pin_auth, list, list_k, prf, rp0: None, faults: vec![], hmac_in: 0, transports: 0, prf_by_cred: 0, user_len: 0, long_labels: false, warmup: 0 })
         .prop_flat_map(|c| {
             // RP IDs of any shape and length (the API takes any string), and store calls failing with any status byte
             let ch = prop_oneof![6 => "[a-z0-9.-]", 2 => "[\u{80}-\u{7ff}]", 1 => "[\u{800}-\u{ffff}]", 1 => "[\u{10000}-\u{10ffff}]"];
@@ -370,6 +410,8 @@ fn strategy() -> impl Strategy<Value = Case> {
                 c.prf_by_cred = prf_by_cred;
                 c.user_len = user_len;
                 c.long_labels = (user_len + prf_by_cred) % 3 == 1;
+                // a third of the cases are served by authenticators that have answered earlier requests
+                c.warmup = if (hmac_in + transports + user_len) % 3 == 0 { c.list_k % 15 } else { 0 };
                 c
             })
         })
@@ -429,6 +471,7 @@ fn minimise(case: &Case) -> Case {
         Box::new(|c| Case { prf_by_cred: 0, ..c.clone() }),
         Box::new(|c| Case { user_len: 0, ..c.clone() }),
         Box::new(|c| Case { long_labels: false, ..c.clone() }),
+        Box::new(|c| Case { warmup: 0, ..c.clone() }),
         Box::new(|c| Case { contents: vec![], ..c.clone() }),
         Box::new(|c| Case { contents: c.contents.iter().take(1).cloned().collect(), ..c.clone() }),
         Box::new(|c| Case { prf: 0, ..c.clone() }),
